@@ -37,7 +37,7 @@ EXHAUSTIVE_SUBSPACES = {
 }
 TIERS = {
     "quick": dict(nshards=16, sweep_hi=0x300, sweep_sample=2500, random_lists=900, big_values=2),
-    "thorough": dict(nshards=64, sweep_hi=0x110000, sweep_sample=0, random_lists=12000, big_values=12),
+    "thorough": dict(nshards=64, sweep_hi=0x110000, sweep_sample=0, random_lists=6000, big_values=12),
 }
 EXCL = {'"', "\\", "\r", "\n"}
 WEIGHTED = [";", "=", "*", "'", "%", " ", "\x00", "\x85", " ", "́", "\U0001f40d", "\t", "&", "+", "#", "?", "/", ":", ",", "é", "ß", "\x7f", "\x1f", "%2", "%41", "a", "b", "Z", "0", "-", "_", "."]
